@@ -154,3 +154,94 @@ get_leaf_pspec = function(
   bindings={'jax.sharding.PartitionSpec': Handler('jax.sharding.PartitionSpec', lambda ex, a, kw: ex.call_value(replicated, [], {}) if not a else (_ for _ in ()).throw(OutsideSubset('PartitionSpec(args)')), 'PartitionSpec() is the replicated spec'),
             'jax.Array': TypeTag('jax.Array'), 'jax.ShapeDtypeStruct': TypeTag('jax.ShapeDtypeStruct'), 'np.ndarray': TypeTag('np.ndarray')},
   modifies=[], props=('C19',))
+
+# ---- with_partitioning(fn, names, mesh).<wrapper>: the initialiser's value boxed with exactly these names and this mesh ----
+InitFnP = opaque('PartitionedInitFn', is_str=False)
+ArgsP = opaque('InitArgs', is_str=False)
+KwP = opaque('InitKwargs', is_str=False)
+init_value = UFn('initializer_value', [InitFnP, ArgsP, KwP], Value, 'fn(*args, **kwargs)')
+
+
+def _call_init(ex, f, a, kw):
+  star = [x[1] for x in a if isinstance(x, tuple) and not isinstance(x, PyTuple) and len(x) == 2 and x[0] == '*']
+  if len(star) != 1 or len(a) != 1 or set(kw) != {'**'}:
+    raise OutsideSubset('fn(*args, **kwargs) expected')
+  return ex.call_value(init_value, [f, star[0], kw['**']], {})
+
+
+InitFnP.call_hook = _call_init
+
+
+def _mk_partitioned(ex, a, kw):
+  if len(a) != 2 or set(kw) != {'mesh'}:
+    raise OutsideSubset('Partitioned(value, names, mesh=mesh) expected')
+  return SV(Partitioned, Partitioned.mk('Partitioned', ex.coerce(a[0], Value).t, ex.coerce(a[1], SeqOf(AxisName)).t, ex.coerce(kw['mesh'], Mesh).t))
+
+
+with_part_wrapper = function(
+  F + '::with_partitioning.<locals>.wrapper', params=[('args', ArgsP), ('kwargs', KwP)], free=[('fn', InitFnP), ('names', SeqOf(AxisName)), ('mesh', Mesh)],
+  returns=Partitioned,
+  ensures=['result.value == initializer_value(fn, args, kwargs)', 'result.names == names', 'result.mesh == mesh'],
+  bindings={'Partitioned': Handler('Partitioned', _mk_partitioned, 'the dataclass constructor')}, props=('C19',))
+with_part_wrapper.vararg = 'args'
+with_part_wrapper.kwarg = 'kwargs'
+
+# ---- meta.add_axis / meta.remove_axis (tree level): every box of the tree gets box.add_axis(index, params) / remove_axis ----
+BoxT = opaque('AxisMetadataBox', is_str=False)
+TreeT2 = opaque('TreeWithBoxes', is_str=False)
+ParamsT = opaque('TransformParams', is_str=False)
+
+
+def _box_method(name):
+  def call(ex, v, a, kw):
+    ex.ghost['bm:n'] = ex.ghost.get('bm:n', 0) + 1
+    ex.ghost['bm:method'] = Lit(name)
+    ex.ghost['bm:recv'] = v
+    ex.ghost['bm:args'] = PyTuple(list(a))
+    ex.ghost['bm:nokw'] = not kw
+    r = ex.fresh(BoxT, 'r_' + name)
+    ex.ghost['bm:result'] = r
+    return r
+  return call
+
+
+BoxT.methods = {'add_axis': _box_method('add_axis'), 'remove_axis': _box_method('remove_axis')}
+
+
+def _map_axis_meta(ex, a, kw):
+  """map_axis_meta(fn, tree): fn is applied to every box of the tree (contract of map_axis_meta.<locals>.wrapper below);
+  here it is applied to one arbitrary box and what it does is recorded"""
+  probe = ex.fresh(BoxT, 'any_box')
+  ex.ghost['mam:probe'] = probe
+  ex.ghost['mam:tree'] = ex.deref(a[1])
+  ex.ghost['mam:fn_result'] = ex.call_value(a[0], [probe], {})
+  return ex.fresh(TreeT2, 'mapped_tree')
+
+
+for _name in ('add_axis', 'remove_axis'):
+  function(
+    F + '::' + _name, params=[('tree', TreeT2), ('index', INT), ('params', ParamsT)], returns=TreeT2,
+    ensures=["ghost('mam:tree') == tree", "ghost('bm:n') == 1 and ghost('bm:nokw')", f"ghost('bm:method') == '{_name}'", "ghost('bm:recv') == ghost('mam:probe')",
+             "len(ghost('bm:args')) == 2 and ghost('bm:args')[0] == index and ghost('bm:args')[1] == params", "ghost('mam:fn_result') == ghost('bm:result')"],
+    bindings={'map_axis_meta': Handler('map_axis_meta', _map_axis_meta, 'applies fn to every AxisMetadata node')}, props=('C19', 'C06'))
+
+AnyNode = opaque('TreeNodeOrBox', is_str=False)
+is_box = UFn('is_axis_metadata_instance', [AnyNode], BOOL, 'isinstance(x, AxisMetadata)')
+AnyNode.isinstance_hook = lambda ex, v, names: ex.call_value(is_box, [v], {}).t if names == {'AxisMetadata'} else (_ for _ in ()).throw(OutsideSubset('isinstance ' + repr(names)))
+MapFn = opaque('BoxFunction', is_str=False)
+app_fn = UFn('apply_box_fn', [MapFn, AnyNode], AnyNode, 'fn(x)')
+MapFn.call_hook = lambda ex, f, a, kw: ex.call_value(app_fn, [f, a[0]], {})
+function(
+  F + '::map_axis_meta.<locals>.wrapper', params=[('x', AnyNode)], free=[('fn', MapFn)], returns=AnyNode,
+  ensures=['result == (apply_box_fn(fn, x) if is_axis_metadata_instance(x) else x)'],       # boxes are mapped, everything else is left alone
+  bindings={'AxisMetadata': TypeTag('AxisMetadata')}, modifies=[], props=('C19', 'C06'))
+
+box_unbox = UFn('box_unbox', [AnyNode], AnyNode, 'c.unbox()')
+box_replace = UFn('box_replace_boxed', [AnyNode, AnyNode], AnyNode, 'c.replace_boxed(v)')
+rec_replace = UFn('replace_boxed_rec', [AnyNode, AnyNode], AnyNode, 'replace_boxed(tree, updates) (the recursive call, uninterpreted)')
+AnyNode.methods = {'unbox': lambda ex, v, a, kw: ex.call_value(box_unbox, [v], {}), 'replace_boxed': lambda ex, v, a, kw: ex.call_value(box_replace, [v, a[0]], {})}
+function(
+  F + '::replace_boxed.<locals>.inner_update', params=[('c', AnyNode), ('v', AnyNode)], returns=AnyNode,
+  # a box keeps its metadata and receives the update for what it wraps (recursively); a plain leaf is replaced by the update
+  ensures=['result == (box_replace_boxed(c, replace_boxed_rec(box_unbox(c), v)) if is_axis_metadata_instance(c) else v)'],
+  bindings={'AxisMetadata': TypeTag('AxisMetadata'), 'replace_boxed': rec_replace}, modifies=[], props=('C19',))
